@@ -51,9 +51,10 @@ var c06Scattered bool
 
 // c06Expected: the probe answers of the completely written index.
 type c06Expect struct {
-	schema [][]string
-	probes []string
-	exprs  []*model.Expr
+	schema   [][]string
+	probes   []string
+	exprs    []*model.Expr
+	complete []byte // the completely written file
 }
 
 func c06Probe(idx *updog.Index, schema [][]string) (out []string, msg string) {
@@ -138,14 +139,25 @@ func c06Judge(ctx *rt.Ctx, image []byte, exp *c06Expect, preload bool) (viol str
 	if c06ShortFile(image) {
 		return c06JudgeChild(ctx, image, preload)
 	}
-	c06Seq++
-	p := filepath.Join(ctx.Scratch, fmt.Sprintf("c06-img-%d.updog", c06Seq))
-	if err := os.WriteFile(p, image, 0o644); err != nil {
-		rt.Harnessf("image: %v", err)
-	}
+	// every image is judged at ONE path, at which this process has just opened (and closed) the complete index: a rebuild
+	// at the path of yesterday's index is the ordinary case, and nothing remembered about the old file may vouch for the new one
+	p := filepath.Join(ctx.Scratch, "c06-img.updog")
 	defer os.Remove(p)
 	flk.Sequential(true)
 	defer flk.Sequential(false)
+	if exp != nil && exp.complete != nil {
+		if err := os.WriteFile(p, exp.complete, 0o644); err != nil {
+			rt.Harnessf("image: %v", err)
+		}
+		if idx, err := ix.Open(p, preload, nil); err == nil {
+			idx.Execute(&updog.Query{Expr: model.Eq("k", "c").Updog()})
+			idx.Close()
+		}
+		os.Remove(p)
+	}
+	if err := os.WriteFile(p, image, 0o644); err != nil {
+		rt.Harnessf("image: %v", err)
+	}
 	defer func() {
 		if r := recover(); r != nil {
 			viol, class = fmt.Sprintf("OpenIndex panicked on the partial file: %v", r), "panic"
@@ -235,6 +247,7 @@ func c06Expectation(ctx *rt.Ctx, build func(out string) error) *c06Expect {
 	}
 	defer idx.Close()
 	e := &c06Expect{schema: schemaOf(idx)}
+	e.complete, _ = os.ReadFile(out)
 	var msg string
 	e.probes, msg = c06Probe(idx, e.schema)
 	if msg != "" {
